@@ -37,6 +37,13 @@ def main():
                 rep.violation({"layer": "replay"}, {"history": rec["h"], "mismatch": mism})
         sel = (lambda m, p: a.only in p.name()) if a.only else None
         recs = reparse.run(MODULES, eff_seed(), cap=8 if quick else 32, derived=6 if quick else 40, select=sel)
+        if not a.only:
+            # the final procedure of every test of the repository's own test files (recorded), printed and parsed again
+            from ..testrec import add_test_edges
+            _, other = add_test_edges(rep, a.tier, d, units=False, fwd=False, purity=False, reparse=60 if quick else 1000)
+            trecs = [o for o in other if o.get("kind") == "reparse"]
+            rep.add_cov(repo_test_final_procedures_reparsed=sum(1 for o in trecs if o.get("status") == "ok"))
+            recs += trecs
         stat = collections.Counter(x["status"] for x in recs)
         units, owners = [], []
         for x in recs:
